@@ -237,6 +237,31 @@ def check(ctx):
             finally:
                 if os.path.exists(path):
                     os.remove(path)
+            # a History that nothing was dumped into shows no series, whatever other histories of the process hold
+            import hist_digest
+            fresh = L['History']()
+            leaked = [k_ for k_ in hist_digest.NAMES if k_ != 'store_best_only' and hasattr(fresh, k_) and getattr(fresh, k_)]
+            if leaked:
+                C.issue('fresh-history-not-empty', 'oracle', dict(how='fresh-history', cfg=c), attributes=leaked)
+            # what the user reads (attribute access) from the loaded object is what was saved — also in another process
+            if hist_digest.visible(h2, L['Node']) != hist_digest.visible(h, L['Node']):
+                C.issue('value-differs-after-load', 'oracle', rp, key='(attribute access)')
+            if n_hist <= (2 if ctx['tier'] == 'quick' else 12):
+                import subprocess, sys as _sys, json as _json
+                p_ = os.path.join(scratch, 'other_process.pkl')
+                h.save(p_)
+                pr = subprocess.run([_sys.executable, os.path.join(os.path.dirname(os.path.abspath(hist_digest.__file__)), 'hist_digest.py'), p_],
+                                    capture_output=True, text=True, env=dict(os.environ), timeout=120)
+                os.remove(p_)
+                try:
+                    got = _json.loads(pr.stdout.strip().splitlines()[-1])
+                except Exception:
+                    got = None
+                if got is None:
+                    C.issue('other-process-load-failed', 'correspondence', dict(how='saveload-other-process', cfg=c), err=pr.stderr[-200:])
+                elif got['digest'] != hist_digest.digest(h, L['Node']) or got['fresh_nonempty']:
+                    C.issue('value-differs-after-load', 'oracle', dict(how='saveload-other-process', cfg=c), fresh_nonempty=got['fresh_nonempty'])
+                C.case(key=('saveload-other-process', c['kind'], c['store_best_only']), nontrivial=True, kind='saveload-other-process')
             a, b = vars(h), vars(h2)
             if set(a) != set(b):
                 C.issue('attributes-differ-after-load', 'oracle', rp, saved=sorted(a), loaded=sorted(b))
